@@ -14,6 +14,12 @@ PROGRAMS = {
               "        ANDCC #$FE\n", "        ORCC #$01\n", "        CMPX #ENTRY\n", "        LBNE ENTRY\n", "        SWI2\n", "        RTS\n"],
     "low": ["        ORG $0010\n", "ZP      RMB 4\n", "CODE    LDA <ZP\n", "        STA >$0400\n", "        INC ZP\n", "        BNE CODE\n",
             "        RTS\n"],
+    "symidx": ["OFS     EQU $10\n", "BIG     EQU $0123\n", "        ORG $3F00\n", "START   LDX #TBL\n", "        LDA [OFS,X]\n",
+               "        STA OFS,Y\n", "        LDB BIG,U\n", "        LDD [BIG,S]\n", "        LEAX OFS,X\n", "        JMP START\n",
+               "TBL     FDB $1234\n"],
+    # a program that declares a direct page, and one that addresses that page with absolute operands but declares nothing
+    "setdp": ["        SETDP $0E00\n", "        ORG $3000\n", "GO      LDA #$01\n", "        STA $0E10\n", "        RTS\n"],
+    "page0e": ["VAR     EQU $0E40\n", "        ORG $0E00\n", "BEGIN   LDA $0E20\n", "        STA VAR\n", "        JMP $0E8F\n", "        RTS\n"],
     "exprs": ["BASE    EQU $1000\n", "SIZE    EQU 16\n", "        ORG $5000\n", "GO      LDX #BASE+SIZE\n", "        LDA BASE+1\n",
               "        LDB #SIZE*2\n", "        LEAX GO+3,PCR\n", "        LDY #GO-2\n", "        FCB SIZE\n", "        RTS\n"],
 }
